@@ -5,7 +5,7 @@ import json, os, subprocess, sys, re, glob
 ROOT = os.environ.get("SEED_ROOT", "/verif")
 REPO = os.environ.get("SEED_REPO", "/repo")
 os.environ["VERIF_REPO"] = REPO
-extra = {"C01-b2": ["C20"]}
+extra = {"C01-b2": ["C20"], "C12-d2": ["C05"], "C05-d1": ["C14"], "C10-d2": ["C06"], "C11-d1": ["C18"]}   # changes that a sibling property's check reports
 ids = sys.argv[1:]
 for d in sorted(glob.glob(os.path.join(ROOT, "seeded", "*", "*"))):
     name = os.path.basename(d); pid = name.split("-")[0]
